@@ -23,11 +23,15 @@ RULE = (
     "year 1 / 9999, single-precision limits) is forced into the first record of a history, every kind of second record "
     "type (other name, renamed/extra/dropped/reordered field, other flow type with the same Avro type) and every unmapped "
     "field type is written first or after valid records, and a GroupedRecord of 1-3 members (first member of the file's type, "
-    "group named on its own or like that type) is offered first or after plain records; three modes: clean (only mappable records), stop (close after the "
+    "group named on its own or like that type; further members share fields with it under other values and every member has "
+    "its own _source/_classification/_generated) is offered first or after plain records; pairs of DIFFERENT descriptors with "
+    "the same name and the same 32-bit identifier hash (re-split type/name concatenation), or the same name and different "
+    "hashes, are written by one process each to its own file, in both orders, sequentially or open together, alone or between "
+    "files of other types (each file must carry its own doc, schema fields and records); three modes: clean (only mappable records), stop (close after the "
     "first refusal), continue (keep writing after refusals).  Oracle (independent model verif/avro_c19.py, never "
     "AVRO_TYPE_MAP): a record whose descriptor is the file's type and whose every slot is in the Avro range MUST be accepted; "
     "any other record is refused with an exception or else stored faithfully (a grouped record: its flat values under its "
-    "flat descriptor, never nulls); after flush+close the file read by "
+    "flat descriptor, the FIRST member's value for every name several members share, reserved fields included; never nulls); after flush+close the file read by "
     "RecordReader (must be an AvroReader) and by fastavro.reader directly holds exactly the accepted records in order: same "
     "type name, same field list, embedded doc == [name, [[type, field]...]], values equal by canonical observation except "
     "floats (equal after rounding to single precision) and timestamps (equal UTC instant to the microsecond); raw values "
@@ -108,6 +112,14 @@ def generate(ctx):
                         if ctx.mine(idx):
                             yield {"k": "grouped", "members": members, "pos": pos, "same_name": same_name, "mode": mode,
                                    "s": subseed("c19", ctx.seed, "grouped", members, pos, same_name, mode, rep)}
+                        idx += 1
+        for pair in ("coincident", "same-name"):
+            for order in ("ab", "ba"):
+                for layout in ("sequential", "open-together"):
+                    for others in (False, True):
+                        if ctx.mine(idx):
+                            yield {"k": "multi", "pair": pair, "order": order, "layout": layout, "others": others, "mode": "clean",
+                                   "s": subseed("c19", ctx.seed, "multi", pair, order, layout, others, rep)}
                         idx += 1
         for ut in am.UNMAPPED_TYPES:
             for pos in ("first", "later"):
@@ -273,9 +285,102 @@ def compare_list(expected, got, err, diff_fn, split):
     return head, tail
 
 
+def execute_multi(ctx, case):
+    """Several Avro files of DIFFERENT descriptors that share their name (and, for 'coincident', their 32-bit identifier
+    hash) written by one process, each to its own file: process-wide state keyed by name / identifier must not leak."""
+    from flow.record import RecordWriter
+
+    thorough = not ctx.quick
+    rng = random.Random(case["s"])
+    a, b = am.coincident_pair(rng) if case["pair"] == "coincident" else am.same_name_pair(rng)
+    descs = [a, b] if case["order"] == "ab" else [b, a]
+    if case["others"]:  # files of unrelated types before, between and after
+        descs = [am.make_descriptor(rng, digest_p=0.0), descs[0], am.make_descriptor(rng, digest_p=0.0), descs[1], am.make_descriptor(rng, digest_p=0.0)]
+    files = []
+    for d in descs:
+        recs = [r for r in (am.make_record(rng, d, bad=False, thorough=thorough) for _ in range(rng.choice([1, 3, 8]))) if am.record_problem(r) is None]
+        ctx.state["n"] += 1
+        files.append({"desc": d, "recs": recs, "path": os.path.join(ctx.state["tmp"], "m%d.avro" % ctx.state["n"])})
+    ctx.ev()
+    detail = {"pair": case["pair"], "descriptors": [observe.desc_obs(f["desc"]) for f in files], "layout": case["layout"],
+              "identifiers": [list(f["desc"].identifier) for f in files]}
+    try:
+        if case["layout"] == "sequential":
+            for f in files:
+                w = RecordWriter(f["path"])
+                try:
+                    for r in f["recs"]:
+                        w.write(r)
+                finally:
+                    w.flush()
+                    w.close()
+        else:
+            writers = [RecordWriter(f["path"]) for f in files]
+            try:
+                for j in range(max(len(f["recs"]) for f in files)):
+                    for f, w in zip(files, writers):
+                        if j < len(f["recs"]):
+                            w.write(f["recs"][j])
+            finally:
+                for w in writers:
+                    w.flush()
+                    w.close()
+    except Exception as e:  # noqa: BLE001
+        ctx.violation(None, "writing mappable records of same-named descriptors to separate Avro files raised %s" % type(e).__name__,
+                      detail=dict(detail, exception=repr(e)[:300]))
+        for f in files:
+            _cleanup(f["path"])
+        return
+    order = list(range(len(files)))
+    if rng.random() < 0.5:
+        order.reverse()
+    for i in order:
+        f = files[i]
+        expected = f["recs"]
+        d2 = dict(detail, file=i, descriptor=observe.desc_obs(f["desc"]))
+        cls_ok, got, err = read_flow(f["path"])
+        schema, raw, raw_err = read_raw(f["path"])
+        _cleanup(f["path"])
+        ctx.event("files_read_back")
+        if not expected:
+            continue
+        head, tail = compare_list(expected, got, err, am.record_diffs, len(expected))
+        if head or tail:
+            ctx.violation(None, "AvroReader: a file written next to a same-named descriptor's file does not hold its own records", detail=dict(d2, problems=(head + tail)[:5]))
+        want_doc = observe.desc_obs(f["desc"])
+        doc = schema.get("doc") if isinstance(schema, dict) else None
+        try:
+            doc_val = json.loads(doc) if isinstance(doc, str) else None
+        except ValueError:
+            doc_val = None
+        if schema is None:
+            ctx.violation(None, "a standard Avro reader cannot open the file", detail=dict(d2, exception=repr(raw_err)[:300]))
+            continue
+        if doc_val != want_doc:
+            ctx.violation(None, "the Avro schema carries another descriptor in 'doc' than the one of the records written", detail=dict(d2, doc=doc))
+        else:
+            ctx.event("doc_checked")
+        names = [x.get("name") for x in schema.get("fields", [])]
+        if names != [n for _, n in am.all_slots(f["desc"])]:
+            ctx.violation(None, "the Avro schema of the file lists other fields than its descriptor", detail=dict(d2, schema_fields=names))
+        head, tail = compare_list(expected, raw, raw_err, am.raw_diffs, len(expected))
+        if head or tail:
+            ctx.violation(None, "fastavro.reader: a file written next to a same-named descriptor's file does not hold its own records", detail=dict(d2, problems=(head + tail)[:5]))
+        ctx.event("records_compared_flow", min(len(expected), len(got)))
+        ctx.event("records_compared_raw", min(len(expected), len(raw)))
+        ctx.event("records_offered", len(expected))
+        ctx.event("records_accepted", len(expected))
+    ctx.event("multi_file_groups")
+    ctx.cell("multi", case["pair"], case["order"], case["layout"], "with-others" if case["others"] else "alone")
+    ctx.nontrivial("multi", case["pair"], case["order"], case["layout"], case["others"], case["s"])
+    ctx.sample({"case": case, "descriptors": detail["descriptors"][:3], "identifiers": detail["identifiers"][:3]}, kind="multi:" + case["pair"])
+
+
 def execute(ctx, case):
     from flow.record import RecordWriter
 
+    if case["k"] == "multi":
+        return execute_multi(ctx, case)
     thorough = not ctx.quick
     recs = build_history(case, thorough)
     if not recs:
@@ -468,7 +573,7 @@ def _cleanup(path):
 
 def finish(ctx):
     ctx.state["reach"].into(ctx)
-    ctx.note("matrix_cells_expected", len(am.all_cells()) + len(am.VARIANT_KINDS) * 2 + len(am.UNMAPPED_TYPES) * 2 + 12 if ctx.shard == 0 else 0)
+    ctx.note("matrix_cells_expected", len(am.all_cells()) + len(am.VARIANT_KINDS) * 2 + len(am.UNMAPPED_TYPES) * 2 + 12 + 16 if ctx.shard == 0 else 0)
     ctx.note("avro_schema_types_seen", sorted(ctx.state.get("avro_types", ())))
     ctx.note("TZ", os.environ.get("TZ"))
     if ctx.evaluations:
